@@ -588,10 +588,12 @@ def run(ctx, rep):
         "subscript is proven in bounds for its exact offset (guard facts), the returned variable follows every swap on all paths, "
         "and only the documented ValueError escapes, before any write; for add/remove/replace/shift no failure point is "
         "reachable after a write to the tree (validate-then-mutate)")
-    rep.rules_run = ["R1", "R2", "R3", "R4", "R5"]
-    rep.assumptions += ["NOT decided: equivalence with an ordered-list model over all histories; results of the queries",
+    rep.rules_run = ["R1", "R2", "R3", "R4", "R5", "R7", "R8"]
+    rep.assumptions += ["NOT decided: equivalence with an ordered-list model over all histories; R7 decides the queries on every position class of a name "
+                        "(first / middle / last / repeated / nested / absent), not on every tree",
                         "a write to the incoming node before it is attached (new_child.parent = self) is not tree state yet"]
     only = getattr(rep, "only", None)
-    for name, fn in (("R1", rule_r1), ("R2", rule_r2), ("R3", rule_r3), ("R4", rule_r4), ("R5", rule_r5)):
+    from .c09_worlds import rule_r7, rule_r8
+    for name, fn in (("R1", rule_r1), ("R2", rule_r2), ("R3", rule_r3), ("R4", rule_r4), ("R5", rule_r5), ("R7", rule_r7), ("R8", rule_r8)):
         if only in (None, name):
             fn(ctx, rep)
